@@ -498,6 +498,13 @@ static void run_C13(const Args &a, long cs) {
 		monodim = 0; p.ord = ord; p.por = por; p.kn = kn; p.co = co; p.lam = lam; p.n = {8, 2, 6}; p.ntot = 96; p.kind = "ill-posed-template"; p.idx = idx; p.w = w;
 		applied.push_back("ill-posed:template(3-d,few-points,monotonic-cubic,vanishing-penalty)");
 	}
+	if (cs % 25 == 17) { // a consistent request in 5 or 6 dimensions (the fit array the fitter works on has twice as many): small orders, few knots, a full grid of 2-3 abscissae per axis
+		ncorr = 0; p.nd = r.range(5, 6); ord.clear(); por.clear(); lam.clear(); kn.clear(); co.clear(); ranges.clear(); p.n.clear(); p.ntot = 1; size_t npt = 1;
+		for (int d = 0; d < p.nd; d++) { uint32_t o = (uint32_t)r.below(2); int nk = 2 * (int)o + 2 + (int)r.below(2); ord.push_back(o); por.push_back((uint32_t)r.below(o + 1)); lam.push_back(r.coin(0.5) ? 0.0 : 1e-2); kn.push_back(gen_knots(r, o, nk, 1, 1.0, r.U(), true)); int nax = nk - (int)o - 1; int np = nax + (int)r.below(2); std::vector<double> c; for (int i = 0; i < np; i++) c.push_back(kn[d][0] + (kn[d].back() - kn[d][0]) * (0.05 + 0.9 * (i + 0.5) / np)); co.push_back(c); ranges.push_back((unsigned)np); p.n.push_back(nax); p.ntot *= (size_t)nax; npt *= (size_t)np; }
+		idx.clear(); w.clear(); p.y.clear(); std::vector<unsigned> I(p.nd); for (size_t lin = 0; lin < npt; lin++) { size_t q = lin; for (int d = p.nd - 1; d >= 0; d--) { I[d] = (unsigned)(q % co[d].size()); q /= co[d].size(); } idx.push_back(I); w.push_back(1.0); p.y.push_back(1.0 + std::sin(0.37 * (double)lin)); }
+		monodim = Table::no_monodim; p.ord = ord; p.por = por; p.kn = kn; p.co = co; p.lam = lam; p.kind = "5-6-dimensions"; p.idx = idx; p.w = w;
+		applied.push_back("valid:5-or-6-dimensions"); count("consistent-requests-in-5-or-6-dimensions");
+	}
 	if (cs % 25 == 11) { // a consistent request with a high spline order and a penalty order of 9..12: nothing but the spline order limits the penalty order, so the
 		// fitter's penalty and basis code must cope (it completes or refuses; the sanitizer watches its work arrays)
 		ncorr = 0; p.nd = 1; uint32_t o = (uint32_t)r.range(9, 12); ord = {o}; por = {(uint32_t)r.range(9, (int)o)}; lam = {std::pow(10.0, (double)r.range(-3, 0))}; int nk = 2 * (int)o + 2 + (int)r.below(3);
